@@ -486,6 +486,33 @@ func (fc *FuncCtx) applyContract(con *Contract, callee *ssa.Function, sig *types
 			eng.warn("termination of the mutual recursion %s -> %s (through the Matcher/Replacer interfaces: structural descent on the compiled pattern) is not shown", shortCallee(fc.fn.String()), shortCallee(key))
 		}
 	}
+	// function literals passed to this callee: their invariants must hold now and hold again afterwards
+	var closInv []func(st *State) []string
+	for _, a := range con.Assigns {
+		if ec, ok := a.(ECall); ok && ec.Fn == "effects" {
+			if mc := fc.closureOfArg(envPre, ec.Args[0]); mc != nil {
+				if ccon := eng.byKey[mc.Fn.(*ssa.Function).String()]; ccon != nil && len(ccon.Invariants) > 0 {
+					mc, ccon := mc, ccon
+					gen := func(s *State) []string {
+						cenv := fc.closureEnv(mc, s, st)
+						var out []string
+						for i, c := range ccon.Invariants {
+							var t string
+							if err := catchTr(fmt.Sprintf("%s invariant %d", ccon.Key, i), func() { t = cenv.trBool(c.E) }); err != nil {
+								panic(trErr(err.Error()))
+							}
+							out = append(out, t)
+						}
+						return out
+					}
+					for i, t := range gen(st) {
+						fc.oblige("closure-inv@"+site, fmt.Sprint(i), reach, t, "invariant of the function literal holds before it is first run", nil)
+					}
+					closInv = append(closInv, gen)
+				}
+			}
+		}
+	}
 	post := st
 	if !con.Pure {
 		post = st.clone()
@@ -512,6 +539,11 @@ func (fc *FuncCtx) applyContract(con *Contract, callee *ssa.Function, sig *types
 		oldwm := st.get("$wm")
 		nwm := post.havoc("$wm")
 		q.assume(fmt.Sprintf("(<= %s %s)", oldwm, nwm))
+	}
+	for _, gen := range closInv {
+		for _, t := range gen(post) {
+			q.assume(fmt.Sprintf("(=> %s %s)", reach, t))
+		}
 	}
 	var results []TV
 	if con.Pure && len(con.Ensures) == 0 {
@@ -548,12 +580,23 @@ func (fc *FuncCtx) applyContract(con *Contract, callee *ssa.Function, sig *types
 		evars["result"] = results[0]
 	}
 	envPost := &Env{fc: fc, vars: evars, st: post, old: st}
+	for i, c := range con.AssumedEns {
+		var t string
+		if err := catchTr(fmt.Sprintf("%s ensures-assumed %d (at call in %s)", con.Key, i, fc.fnName), func() { t = envPost.trBool(c.E) }); err != nil {
+			panic(trErr(err.Error()))
+		}
+		q.assume(fmt.Sprintf("(=> %s %s)", reach, t))
+		fc.topCtx().assumedPosts[con.Key+": "+c.Src] = true
+	}
 	for i, c := range con.Ensures {
 		if strings.Contains(c.Src, "ret(") {
 			continue // refers to call sites inside the callee: not meaningful to callers
 		}
 		var t string
 		if err := catchTr(fmt.Sprintf("%s ensures %d (at call in %s)", con.Key, i, fc.fnName), func() { t = envPost.trBool(c.E) }); err != nil {
+			if strings.Contains(err.Error(), "unknown identifier") {
+				continue // the clause speaks about a local variable of the callee: checked there, of no use here
+			}
 			panic(trErr(err.Error()))
 		}
 		q.assume(fmt.Sprintf("(=> %s %s)", reach, t))
@@ -944,6 +987,7 @@ func (fc *FuncCtx) appendOp(res ssa.Value, c *ssa.CallCommon, args []TV, st *Sta
 		q.assume(fmt.Sprintf("(forall ((k Int)) (! (=> (and (<= 0 k) (< k %s)) (= (select %s (+ %s (s-len %s) k)) (select %s (+ %s k)))) :pattern ((select %s (+ %s (s-len %s) k)))))", tlen, content, noff, s.T, tarr, toff, content, noff, s.T))
 	}
 	st.set(eh, fmt.Sprintf("(store %s %s %s)", h, narr, content))
+	fc.elemFrame(eh, h, st.get(eh), narr)
 	tv := fc.setVal(res, fmt.Sprintf("(mk-slice %s %s %s %s)", narr, noff, n, ncap))
 	// the same facts in the elem_X vocabulary contracts use
 	ef := eng.elemFn(es)
